@@ -13,7 +13,7 @@ import JjModel.Drv.Util
     n none | a all | v visible_heads | w visible_heads_or_referenced | r root | c[1.2.3] commits
     A(x,lo,hi,fp) ancestors | D(x,lo,hi) descendants | R(roots,heads,lo,hi,fp) range
     G(roots,heads) dag range | E(sources,domain) reachable | H(x) heads | Q(roots,heads,fp,filter)
-    O(x) roots | F(x) fork_point | L(x,n) latest | K(a,b) coalesce | N(x) ~x
+    O(x) roots | F(x) fork_point | P(x) merge_point | f forks | L(x,n) latest | K(a,b) coalesce | N(x) ~x
     U(a,b) | I(a,b) & | M(a,b) ~       with hi = number or `i` (unbounded), fp = 0/1.
   Answer: the positions, newest first (`-` when empty).
 -/
@@ -59,6 +59,7 @@ def parseExpr : Nat → List Char → Option (Expr × List Char)
     | 'v' :: r => some (.visibleHeads, r)
     | 'w' :: r => some (.visibleHeadsOrReferenced, r)
     | 'r' :: r => some (.root, r)
+    | 'f' :: r => some (.forks, r)
     | 'c' :: '[' :: r => do
       let (l, r) ← parseIds (r.length + 1) r []
       some (.commits l, r)
@@ -109,13 +110,14 @@ def parseExpr : Nat → List Char → Option (Expr × List Char)
       let r ← expect ')' r
       some (.latest x n, r)
     | c :: '(' :: r =>
-      if c = 'H' ∨ c = 'O' ∨ c = 'F' ∨ c = 'N' then do
+      if c = 'H' ∨ c = 'O' ∨ c = 'F' ∨ c = 'N' ∨ c = 'P' then do
         let (x, r) ← parseExpr f r
         let r ← expect ')' r
         match c with
         | 'H' => some (.heads x, r)
         | 'O' => some (.roots x, r)
         | 'F' => some (.forkPoint x, r)
+        | 'P' => some (.mergePoint x, r)
         | _ => some (.notIn x, r)
       else if c = 'G' ∨ c = 'E' ∨ c = 'K' ∨ c = 'U' ∨ c = 'I' ∨ c = 'M' then do
         let (x, r) ← parseExpr f r
